@@ -951,6 +951,17 @@ func (e *Env) call(n *ECall) Val {
 		a := e.tr(n.Args[0])
 		b := e.tr(n.Args[1])
 		return Val{T: fmt.Sprintf("(= (s-ref %s) (s-ref %s))", a.T, b.T), S: "Bool", GT: types.Typ[types.Bool]}
+	case "runestr":
+		// runestr(x): string(x) of an integer (the one-character string of code point x)
+		v := e.tr(n.Args[0])
+		if v.GT == nil && v.K != nil {
+			v = e.constAs(v.K, types.Typ[types.Int])
+		}
+		x := v.T
+		if g.mode == "bv" {
+			x = g.convertInt(v, v.GT, types.Typ[types.Int64]).T
+		}
+		return Val{T: g.runeStr(x), S: "Str", GT: types.Typ[types.String]}
 	case "runeLen":
 		v := e.tr(n.Args[0])
 		return Val{T: fmt.Sprintf("(rune-len %s)", v.T), S: g.idx(), GT: types.Typ[types.Int]}
